@@ -299,6 +299,28 @@ fn emit_c12(w: &mut dyn Write, id: &str, label: &str, m: &Machine, crafted: Opti
         Outcome::Hang => "hang",
     };
     let _ = writeln!(w, "o fwnew {}", fwnew);
+    // the same judgement when the machines live in a slice that earlier calls on this thread have already
+    // passed to Framework::new (same address, same length, other content): it must not depend on the past
+    if fwnew != "hang" {
+        thread_local! {
+            static SLOT: std::cell::RefCell<Vec<Machine>> = const { std::cell::RefCell::new(Vec::new()) };
+        }
+        let again = SLOT.with(|slot| {
+            let mut v = slot.borrow_mut();
+            if v.is_empty() {
+                v.push(m.clone());
+            } else {
+                v[0] = m.clone();
+            }
+            let r = catch_unwind(AssertUnwindSafe(|| Framework::new(&*v, fp, fb, VInstant(0), ScriptRng::new(7, 0)).map(|_| ())));
+            match r {
+                Ok(Ok(())) => "ok",
+                Ok(Err(_)) => "err",
+                Err(_) => "panic",
+            }
+        });
+        let _ = writeln!(w, "o fwnew2 {}", again);
+    }
     // "a machine obtained from any of them can always be run": drive every framework the
     // implementation agreed to build through a short scripted history (every event kind, for the
     // machine itself and for an unknown id, three fair random streams) and report how it went
